@@ -468,10 +468,11 @@ _dispatch_transform_from_utf16(dispatch_data_t data, int32_t byteOrder)
 			if (ch == 0xfffe && offset == 0 && i == 0) {
 				// Wrong-endian BOM at beginning of data
 				return (bool)false;
-			} else if (ch == 0xfeff && offset == 0 && i == 0) {
-				// Correct-endian BOM, skip it
-				continue;
 			}
+			// A correct-endian BOM is converted like any other character:
+			// every format this intermediate UTF-8 can be encoded to (UTF-8
+			// without BOM, UTF-16) drops one leading BOM itself. Dropping it
+			// here as well would lose a U+FEFF character that follows the BOM.
 
 			if ((ch >= 0xd800) && (ch <= 0xdbff)) {
 				// Surrogate pair
